@@ -7,3 +7,5 @@ import Snowflake.Props.C02
 import Snowflake.Props.C03
 import Snowflake.Props.C04
 import Snowflake.Tie.Broker
+import Snowflake.Props.C14
+import Snowflake.Tie.BrokerHttp
